@@ -32,30 +32,46 @@ def built(vf):
     vo = v + "o"
     return os.path.exists(vo) and os.path.getmtime(vo) >= os.path.getmtime(v)
 
-def build_all(clean=False, verbose=False):
+def build_all(clean=False, verbose=False, only=None):
     os.makedirs(BUILD, exist_ok=True)
     lock = open(os.path.join(BUILD, ".lock"), "w")
     fcntl.flock(lock, fcntl.LOCK_EX)
     try:
-        return _build_all(clean, verbose)
+        return _build_all(clean, verbose, only)
     finally:
         fcntl.flock(lock, fcntl.LOCK_UN)
 
-def _build_all(clean, verbose):
+def _build_all(clean, verbose, only=None):
     log = []
     st = {"tools_ok": True, "coq_ok": True, "coq_failed": [], "log": "", "gen_notes": []}
     def say(m):
         log.append(m)
         if verbose:
             print(m, flush=True)
-    # 0. Go worker and translator (against /repo's working tree)
+    # 0. Go workers (one binary per property, so that a handler that no longer compiles against /repo's
+    #    working tree only breaks its own property) and translator
     shutil.copyfile("/repo/go.sum", os.path.join(VERIF, "harness", "go.sum"))
-    rc, out = sh(["go", "build", "-tags", "verif", "-o", os.path.join(BUILD, "worker"), "./worker"],
-                 cwd=os.path.join(VERIF, "harness"), env=GOENV)
-    say("go build worker: rc=%d %s" % (rc, out[-3000:]))
-    if rc != 0:
-        st["tools_ok"] = False
-        st["worker_error"] = out[-3000:]
+    wdir = os.path.join(VERIF, "harness", "worker")
+    allgo = sorted(f for f in os.listdir(wdir) if f.endswith(".go") and not f.endswith("_test.go"))
+    import re as _re
+    shared = [f for f in allgo if not _re.match(r"c\d\d", f)]
+    props = sorted(set(_re.match(r"(c\d\d)", f).group(1).upper() for f in allgo if _re.match(r"c\d\d", f)))
+    if only:
+        props = [p for p in props if p == only]
+    st["worker_errors"] = {}
+    def build_worker(p):
+        files = shared + [f for f in allgo if f.startswith(p.lower())]
+        return p, sh(["go", "build", "-tags", "verif", "-o", os.path.join(BUILD, "worker-" + p)] + files, cwd=wdir, env=GOENV)
+    from concurrent.futures import ThreadPoolExecutor
+    with ThreadPoolExecutor(max_workers=8) as ex:
+        for p, (rc, out) in ex.map(build_worker, props):
+            say("go build worker-%s: rc=%d %s" % (p, rc, out[-3000:]))
+            if rc != 0:
+                st["worker_errors"][p] = out[-3000:]
+                try:
+                    os.remove(os.path.join(BUILD, "worker-" + p))
+                except OSError:
+                    pass
     tr = os.path.join(VERIF, "tools", "gotrans")
     if os.path.exists(os.path.join(tr, "main.go")):
         rc, out = sh(["go", "build", "-o", os.path.join(BUILD, "gotrans"), "."], cwd=tr, env=GOENV)
